@@ -1,6 +1,7 @@
 package flows
 
 import (
+	"github.com/nyaruka/goflow/assets"
 	"time"
 
 	"github.com/nyaruka/goflow/envs"
@@ -37,4 +38,93 @@ func VerifC08_ResultsContext() {
 	zzverif.Assert(f1 == c2.Format(env), "the formatting of run results differs between executions")
 	d2, _ := c2.Get("age")
 	zzverif.Assert(types.Render(d1) == types.Render(d2), "a result lookup differs between executions")
+}
+
+type verifLocField struct {
+	key string
+	typ assets.FieldType
+}
+
+func (f *verifLocField) UUID() assets.FieldUUID { return assets.FieldUUID("uuid-" + f.key) }
+func (f *verifLocField) Key() string            { return f.key }
+func (f *verifLocField) Name() string           { return "Field " + f.key }
+func (f *verifLocField) Type() assets.FieldType { return f.typ }
+
+const verifLocations = `{"name":"Rwanda","children":[
+	{"name":"Kigali City","children":[{"name":"Gasabo","children":[{"name":"Gisozi"}]},{"name":"Nyarugenge","children":[{"name":"Gitega"}]}]},
+	{"name":"Eastern Province","children":[{"name":"Rwamagana","children":[{"name":"Kigabiro"}]},{"name":"Kayonza","children":[{"name":"Gitega"}]}]}]}`
+
+// VerifC08_LocationParent: a contact with two state fields and two district
+// fields holding different values (set in either order), then a district /
+// ward field set from a bare name that exists under one parent only (or under
+// both, or nowhere): the parsed value — which parent location was used — is
+// the same on every execution whatever the iteration order of the contact's
+// field values map.
+// cover: district-found, district-not-found, ward-found
+func VerifC08_LocationParent() {
+	base := envs.NewBuilder().Build()
+	h := &envs.LocationHierarchy{}
+	zzverif.Assert(h.UnmarshalJSON([]byte(verifLocations)) == nil, "setup: locations did not load")
+	env := NewAssetsEnvironment(base, NewLocationAssets([]assets.LocationHierarchy{h}))
+	defs := []assets.Field{&verifLocField{"state_a", assets.FieldTypeState}, &verifLocField{"state_b", assets.FieldTypeState},
+		&verifLocField{"district_a", assets.FieldTypeDistrict}, &verifLocField{"district_b", assets.FieldTypeDistrict}, &verifLocField{"ward", assets.FieldTypeWard},
+		&verifLocField{"nick", assets.FieldTypeText}}
+	if zzverif.Choice("field-order", 2) == 1 {
+		defs[0], defs[1] = defs[1], defs[0]
+		defs[2], defs[3] = defs[3], defs[2]
+	}
+	fields := NewFieldAssets(defs)
+	swap := zzverif.Choice("values-swapped", 2) == 1
+	reverse := zzverif.Choice("set-in-reverse", 2) == 1
+	wardName := []string{"Gisozi", "Gitega", "Kigabiro", "Nowhere"}[zzverif.Choice("ward-name", 4)]
+	districtName := []string{"Gasabo", "Rwamagana", "Kayonza", "Nowhere"}[zzverif.Choice("district-name", 4)]
+	run := func() string {
+		fv := FieldValues{}
+		sa, sb := "Kigali City", "Eastern Province"
+		da, db := "Rwanda > Kigali City > Nyarugenge", "Rwanda > Eastern Province > Kayonza"
+		if swap {
+			sa, sb = sb, sa
+			da, db = db, da
+		}
+		set := func(key, raw string) {
+			f := fields.Get(key)
+			fv.Set(f, fv.Parse(env, fields, f, raw))
+		}
+		if reverse {
+			set("nick", "x")
+			set("state_b", sb)
+			set("state_a", sa)
+			set("district_b", db)
+			set("district_a", da)
+		} else {
+			set("state_a", sa)
+			set("state_b", sb)
+			set("district_a", da)
+			set("district_b", db)
+			set("nick", "x")
+		}
+		d := fv.Parse(env, fields, fields.Get("district_a"), districtName)
+		w := fv.Parse(env, fields, fields.Get("ward"), wardName)
+		if d.District != "" {
+			zzverif.Cover("district-found")
+		} else {
+			zzverif.Cover("district-not-found")
+		}
+		if w.Ward != "" {
+			zzverif.Cover("ward-found")
+		}
+		return string(d.State) + "|" + string(d.District) + "|" + string(w.State) + "|" + string(w.District) + "|" + string(w.Ward)
+	}
+	first := run()
+	zzverif.SymbolicMapOrder(true)
+	// natively Go randomises every range itself: repeat the second execution
+	// often enough to observe a differing order
+	repeats := 1
+	if !zzverif.Symbolic() {
+		repeats = 500
+	}
+	for n := 0; n < repeats; n++ {
+		zzverif.Assert(first == run(), "the location a bare district or ward name resolves to differs between executions")
+	}
+	zzverif.SymbolicMapOrder(false)
 }
